@@ -1,4 +1,4 @@
-import ThunderProofs.Fed.Fused
+import ThunderProofs.Fed.Literal
 /-!
 # C06 — Federation is transparent: the gateway answers like one combined server
 
@@ -24,6 +24,36 @@ theorem gateway_eq_monolith_stitched (σ : Sch) (st : Store) (qs : List Q) (hn :
 theorem partition_independent (σ σ' : Sch) (st : Store) (qs : List Q) (hn : Norm qs) (svc svc' : Nat) (r : Ref) :
     den (dropFed (.obj (fusedBody σ st svc qs r))) = den (dropFed (.obj (fusedBody σ' st svc' qs r))) := by
   rw [fused_eq_monolith σ st qs hn svc r, fused_eq_monolith σ' st qs hn svc' r]
+
+/-- **The gateway answers like the combined server** (normalized, union-free queries).  Plan the
+query for the current service (`planObject`: local selections, a `_federation` key selection,
+one sub-plan per other chosen service, the children's sub-plans lifted with their path), execute
+the plan tree the way `Executor.execute` does — run the sub-query for all keys at once, for every
+sub-plan extract the keys along its path in traversal order, execute it, stitch result `i` into
+target `i` — and delete the `_federation` keys: the result is, as JSON, the combined server's
+answer.  For every partition of fields over services, selector, per-selection pick, store whose
+field values respect the schema's field types (`WT`), object and normalized query, of any depth
+and width, through null links and lists with null elements. -/
+theorem gateway_eq_monolith (σ : Sch) (st : Store) (wt : WT σ st) (qs : List Q) (hn : Norm qs) (svc : Nat) (r : Ref) :
+    den (gateway σ st svc r qs) = den (.obj (evalSels st qs r)) := by
+  rw [gateway_eq_fused σ st wt qs hn svc r]
+  exact fused_eq_monolith σ st qs hn svc r
+
+/-- the plan's execution for a list of keys is, key by key, the object-by-object form: result `i`
+belongs to key `i` -/
+theorem exec_pointwise (σ : Sch) (st : Store) (wt : WT σ st) (qs : List Q) (hn : Norm qs) (svc t : Nat)
+    (path : List Nat) (keys : List Int) :
+    exec st (.mk path svc t (planBody σ svc t qs).1 (planBody σ svc t qs).2) keys =
+      keys.map fun k => .obj (fusedBody σ st svc qs ⟨t, k⟩) :=
+  exec_eq_fused σ st wt qs hn svc t path keys
+
+/-- **Objects reached through a hop are matched back to the right parent**: when result `i` is the
+answer for key `i` (whatever function `h` of the key), stitching along a path hands every target
+object the answer for its own key — through lists, null elements and nested objects — and
+consumes exactly the results of the keys it extracted. -/
+theorem extract_stitch_aligned (h : Int → R) (xs : List R) (p : List Nat) (more : List R) :
+    stitchL xs p ((extractL xs p).map h ++ more) = (applyAtL h xs p, more) :=
+  stitchL_pointwise h xs p more
 
 /-- what the planner may assume of its schema: a custom selector and the fallback pick name services that expose the field -/
 def Sch.WF (σ : Sch) : Prop :=
@@ -86,5 +116,41 @@ example : gateway σ0 st0 1 ⟨10, 0⟩ q0 =
 example : Norm q0 := by
   refine ⟨by decide, ?_⟩
   simp [q0, normL, normQ, aliases, FED]
+
+/-- the example store respects the example schema: the hypotheses of `gateway_eq_monolith` are satisfiable with content -/
+example : WT σ0 st0 := by
+  constructor
+  · intro r n r' h
+    unfold st0 at h
+    split at h
+    · cases h
+    · split at h
+      · cases h
+      · split at h <;> cases h
+  · intro r n rs r' h hm
+    unfold st0 at h
+    split at h
+    · rename_i hc
+      injection h with h
+      subst h
+      simp only [List.mem_cons, Option.some.injEq, List.mem_nil_iff, or_false] at hm
+      simp only [σ0, hc, and_self, if_true]
+      rcases hm with rfl | h2 | rfl
+      · rfl
+      · cases h2
+      · rfl
+    · split at h
+      · cases h
+      · split at h <;> cases h
+  · intro r n hc
+    unfold st0
+    split
+    · rename_i h1
+      simp [σ0, h1] at hc
+    · split
+      · exact Or.inr ⟨_, rfl⟩
+      · split
+        · exact Or.inr ⟨_, rfl⟩
+        · exact Or.inl rfl
 
 end TM.Properties.C06
